@@ -565,7 +565,7 @@ def eqv_spec(a, b):
 IMPORTS = """(import (srfi 69) (only (chibi io) utf8->string!) (rename (only (chibi) equal?) (equal? core-equal?))
         (only (chibi) slot-ref) (only (chibi ast) type-of) (only (srfi 151) arithmetic-shift)
         (prefix (only (srfi 125) make-hash-table hash-table-set! hash-table-delete! hash-table-ref/default hash-table-size
-                      hash-table->alist hash-table-copy hash-table-update!/default
+                      hash-table->alist hash-table-copy hash-table-update!/default hash-table-update!
                       alist->hash-table hash-table hash-table-unfold hash-table-empty-copy) h125:)
         (only (srfi 128) make-equal-comparator make-eqv-comparator make-eq-comparator make-comparator
               make-default-comparator default-comparator eq-comparator eqv-comparator equal-comparator
@@ -618,16 +618,73 @@ PRELUDE = r"""
                  ((c) (set! other ht) (set! ht (t-copy ht)))
                  ((k) (set! other (t-copy-aside ht)))
                  ((x) (if other (let ((tmp ht)) (set! ht other) (set! other tmp))))
-                 ((u) (t-upd ht (vector-ref keys (cadr o)) (lambda (x) (+ x 1)) (car (cddr o))))))
+                 ((u) (t-upd ht (vector-ref keys (cadr o)) (lambda (x) (+ x 1)) (car (cddr o))))
+                 ;; round 4: hash-table-update! with a default thunk; an update whose procedure / thunk raises; update! without default
+                 ((U) ((vector-ref api 8) ht (vector-ref keys (cadr o)) (lambda (x) (+ x 1)) (let ((dflt (car (cddr o)))) (lambda () dflt))))
+                 ((e) (guard (exn (#t #f))
+                        (if (= 0 (car (cddr o)))
+                            (t-upd ht (vector-ref keys (cadr o)) (lambda (x) (error "c15 procedure raises")) 0)
+                            ((vector-ref api 8) ht (vector-ref keys (cadr o)) (lambda (x) (error "c15 procedure raises")) (lambda () (error "c15 thunk raises"))))))
+                 ((E) (guard (exn (#t #f)) ((vector-ref api 8) ht (vector-ref keys (cadr o)) (lambda (x) (+ x 1)))))))
              (dump first?)
              (lp (cdr ops) #f))))
     (get-output-string out)))
+;; ---- round 4: pointer level.  The real spine pairs of the bucket chains are numbered by identity before an operation
+;; (bucket by bucket, front to back) and looked up again afterwards: "len;i=k:v,k:v;i=..~len;i=a:k:v,a:k:v;.." (a = -1: a new pair)
+(define (c15-chains ht keys ops)
+  (let ((n (vector-length keys)) (out (open-output-string)))
+    (define (kidx k) (let lp ((i 0)) (cond ((= i n) -1) ((eq? (vector-ref keys i) k) i) (else (lp (+ i 1))))))
+    (define (bvec) (slot-ref (type-of ht) ht 0))
+    (define (snapshot)
+      (let ((v (bvec)))
+        (let lp ((i (- (vector-length v) 1)) (acc '()))
+          (if (< i 0)
+              (cons (vector-length v) acc)
+              (lp (- i 1)
+                  (if (pair? (vector-ref v i))
+                      (cons (cons i (let sp ((p (vector-ref v i)) (a '()) (c 0))
+                                      (if (and (pair? p) (< c 3000)) (sp (cdr p) (cons p a) (+ c 1)) (reverse a))))
+                            acc)
+                      acc))))))
+    (define (show-cell c) (write-string (number->string (kidx (car c))) out) (write-string ":" out) (write-string (c15-hex (cdr c)) out))
+    (define (addr-of p numbered) (let ((e (assq p numbered))) (if e (cdr e) -1)))
+    (let lp ((ops ops) (first? #t))
+      (cond ((pair? ops)
+             (let* ((o (car ops)) (before (snapshot)) (numbered '()) (next 0))
+               (if (not first?) (write-string "|" out))
+               (write-string (number->string (car before)) out)
+               (for-each (lambda (b)
+                           (write-string ";" out) (write-string (number->string (car b)) out) (write-string "=" out)
+                           (let cl ((ps (cdr b)) (f #t))
+                             (cond ((pair? ps)
+                                    (if (not f) (write-string "," out))
+                                    (set! numbered (cons (cons (car ps) next) numbered)) (set! next (+ next 1))
+                                    (show-cell (car (car ps)))
+                                    (cl (cdr ps) #f)))))
+                         (cdr before))
+               (case (car o)
+                 ((s) (hash-table-set! ht (vector-ref keys (cadr o)) (car (cddr o))))
+                 ((d) (hash-table-delete! ht (vector-ref keys (cadr o)))))
+               (let ((after (snapshot)))
+                 (write-string "~" out)
+                 (write-string (number->string (car after)) out)
+                 (for-each (lambda (b)
+                             (write-string ";" out) (write-string (number->string (car b)) out) (write-string "=" out)
+                             (let cl ((ps (cdr b)) (f #t))
+                               (cond ((pair? ps)
+                                      (if (not f) (write-string "," out))
+                                      (write-string (number->string (addr-of (car ps) numbered)) out) (write-string ":" out)
+                                      (show-cell (car (car ps)))
+                                      (cl (cdr ps) #f)))))
+                           (cdr after))))
+             (lp (cdr ops) #f))))
+    (get-output-string out)))
 (define c15-api69 (vector hash-table-set! hash-table-delete! hash-table-ref/default hash-table-size hash-table->alist hash-table-copy hash-table-update!/default
-                          hash-table-copy))
+                          hash-table-copy hash-table-update!))
 ;; (srfi 125): the copy the history continues on is the mutable variant, the copy kept aside the immutable one
 (define c15-api125 (vector h125:hash-table-set! h125:hash-table-delete! h125:hash-table-ref/default h125:hash-table-size h125:hash-table->alist
                            (lambda (t) (h125:hash-table-copy t #t)) h125:hash-table-update!/default
-                           (lambda (t) (h125:hash-table-copy t))))
+                           (lambda (t) (h125:hash-table-copy t)) h125:hash-table-update!))
 ;; ---- round 3: results of arithmetic with a bignum / ratio / flonum / complex operand against the literal of the same value
 (define (c15-tab r lit t)
   (hash-table-set! t lit 1) (hash-table-set! t r 2)
@@ -697,6 +754,7 @@ KINDS = {
     2: ("equal?", None),    # chosen per history: default table (built-in path) or (make-hash-table equal?) (procedure path)
     3: ("string=?", "(make-hash-table string=? string-hash)"),
     4: ("user-mod7", "(make-hash-table (lambda (a b) (= (modulo a 7) (modulo b 7))) (lambda (k n) (+ (modulo k 7) 20)))"),
+    5: ("user-weak3", "(make-hash-table (lambda (a b) (= (modulo a 41) (modulo b 41))) (lambda (k n) (* 5 (modulo (modulo k 41) 3))))"),
 }
 KINDS125 = {
     0: "(h125:make-hash-table (make-eq-comparator))",
@@ -704,6 +762,7 @@ KINDS125 = {
     2: "(h125:make-hash-table (make-equal-comparator))",
     3: "(h125:make-hash-table string=? c128:string-hash)",
     4: "(h125:make-hash-table (make-comparator integer? (lambda (a b) (= (modulo a 7) (modulo b 7))) #f (lambda (k) (modulo k 7))))",
+    5: "(h125:make-hash-table (make-comparator integer? (lambda (a b) (= (modulo a 41) (modulo b 41))) #f (lambda (k) (* 5 (modulo (modulo k 41) 3)))))",
 }
 
 
@@ -744,6 +803,10 @@ def run(ctx):
     except Exception as e:
         ctx.broken("gen:C15_Consts", "constants cannot be regenerated from the source: %s" % e)
         return
+    UPDATE_FIXED[0] = bool(C.get("UPDATE_FIXED"))
+    if not UPDATE_FIXED[0]:
+        ctx.note("F-C15-5 present in this tree: a hash-table-update!(/default) whose procedure / thunk raises (or update! of an absent key without default) leaves a "
+                 "phantom entry key -> (not-found); failing updates are NOT generated until fixes/C15-update-failure-phantom-entry.patch is applied")
     # (T)
     ctx.coq_obligations("Properties_C15")
     exe = ctx.extract("C15")
@@ -769,6 +832,7 @@ def run(ctx):
     graphs(ctx, d, exe, C, *((2, 40, [20000]) if not T else (12, 1500, [10001, 20000, 50000])))
     t2 = time.time()
     histories(ctx, d, exe, C, (100, 8) if not T else (1100, 60))
+    chains(ctx, d, exe, C, 30 if not T else 600)
     t3 = time.time()
     ctor_histories(ctx, d, exe, C, *((2, 1.0) if not T else (8, 1.0)))
     ctx.note("wall: constructor histories %.0fs" % (time.time() - t3))
@@ -1752,10 +1816,13 @@ def ctor_histories(ctx, d, exe, C, rounds, frac):
             exprs.append(e)
             mreq.append("mhist %s %s" % (",".join("%x" % c for c in cl), ops_model([("s", k, v) for k, v in init] + ops)))
             meta.append((api, eqn, label, ops, len(init), cl))
-    out = [unquote(x) for x in scm.run_cases(d, exprs, prelude_extra=PRELUDE, imports=IMPORTS, chunk=60, timeout=900)]
+    # a table whose chains became cyclic hangs in every lookup: one full timeout per dead case, so stop after two (round 4)
+    out = [unquote(x) for x in scm.run_cases(d, exprs, prelude_extra=PRELUDE, imports=IMPORTS, chunk=60, timeout=HIST_TIMEOUT(ctx), max_dead=2)]
     mo = ctx.run_model(exe, mreq)
     for (api, eqn, label, ops, ninit, cl), e, o, m in zip(meta, exprs, out, mo):
         rp = replay_scm(e)
+        if o == "SKIPPED":
+            continue
         if o is None or o.startswith(("ERR", "CRASH", "TIMEOUT")):
             ctx.count(1, key=e)
             ctx.violation("table:ctor:%s:error" % label, input=e, equivalence=eqn, expected="a history dump", observed=o, replay=rp)
@@ -1771,10 +1838,18 @@ def ctor_histories(ctx, d, exe, C, rounds, frac):
     ctx.note("constructor histories: %d histories over %d constructor forms, every key object freshly computed" % (len(exprs), len(ctors)))
 
 
+UPDATE_FIXED = [False]     # set by run(): the tree has the repair of F-C15-5 (a failing hash-table-update! left a phantom entry)
+
+
+def HIST_TIMEOUT(ctx):
+    """per chunk of 40-60 histories (normally 5-25 s, also on the saturated machine)"""
+    return 900 if ctx.thorough else 300
+
+
 # ------------------------------------------------------------------------------------------------ K-outer B
 def gen_universe(rng, kind):
     """list of (value, identity) — values may repeat (equivalent but distinct objects) except immediates"""
-    n = rng.choice([3, 6, 10, 16, 24, 40])
+    n = rng.choice([3, 6, 10, 16, 24, 40]) if kind != 5 else rng.choice([10, 24, 40, 60])
     vals = []
     seen_imm = set()
     tries = 0
@@ -1790,6 +1865,8 @@ def gen_universe(rng, kind):
             v = gen_val(rng, 2) if rng.random() < 0.6 else gen_leaf(rng)
         elif kind == 3:
             v = gen_str(rng, 4)
+        elif kind == 5:
+            v = ("int", rng.randrange(-100, 100))
         else:
             v = ("int", rng.randrange(-60, 60))
         if vals and rng.random() < 0.3 and kind in (1, 2, 3):
@@ -1817,6 +1894,8 @@ def classes(vals, kind):
                 return a == b and a[0] in ("int", "flo", "char", "imm")
             if kind in (2, 3):
                 return a == b
+            if kind == 5:
+                return a[1] % 41 == b[1] % 41
             return a[1] % 7 == b[1] % 7
         for (j, w, c) in reps:
             if eq(w, v, j, i):
@@ -1828,7 +1907,7 @@ def classes(vals, kind):
     return out
 
 
-def gen_ops(rng, nkeys, nops, immutable_aside=False):
+def gen_ops(rng, nkeys, nops, immutable_aside=False, extra=None):
     """set / delete / update!/default / copy.  A copy (c: continue on the copy, the original is kept as the other table; k: the
     copy is kept aside) is followed by a burst of set!/update!/delete on keys that are PRESENT (by index) in the table, on either
     table (x swaps the two; never after k on an immutable copy): both tables are dumped after every operation."""
@@ -1843,7 +1922,7 @@ def gen_ops(rng, nkeys, nops, immutable_aside=False):
             ops.append(("d", k))
             present.discard(k)
         elif kind == "u":
-            ops.append(("u", k, rng.randrange(0, 1000)))
+            ops.append(("U" if extra is not None and rng.random() < 0.4 else "u", k, rng.randrange(0, 1000)))
             present.add(k)
         else:
             val += 1
@@ -1861,6 +1940,14 @@ def gen_ops(rng, nkeys, nops, immutable_aside=False):
                 one(rng.choice(sorted(present)), rng.choice("ssud"))
                 continue
         k = rng.randrange(nkeys)
+        if extra and rng.random() < 0.06:
+            # round 4: updates that fail (the table must stay as it is); only when the tree has the repair of F-C15-5 (`present' is by key
+            # index, the table's notion is by class, so no failing update is safe on the unrepaired code)
+            if rng.random() < 0.5:
+                ops.append(("e", k, rng.randrange(2)))
+            else:
+                ops.append(("E", k))      # present (by class) or not is decided by the SPEC map
+            continue
         if c < pdel:
             one(k, "d")
         elif c < pdel + 0.06 and ops:
@@ -1881,7 +1968,8 @@ def gen_ops(rng, nkeys, nops, immutable_aside=False):
 
 
 def ops_model(ops):
-    return ";".join({"s": lambda o: "s%d:%x" % (o[1], o[2]), "d": lambda o: "d%d" % o[1], "c": lambda o: "c", "k": lambda o: "k", "x": lambda o: "x", "u": lambda o: "u%d:%x" % (o[1], o[2])}[o[0]](o) for o in ops) or "_"
+    return ";".join({"s": lambda o: "s%d:%x" % (o[1], o[2]), "d": lambda o: "d%d" % o[1], "c": lambda o: "c", "k": lambda o: "k", "x": lambda o: "x", "u": lambda o: "u%d:%x" % (o[1], o[2]),
+                     "U": lambda o: "u%d:%x" % (o[1], o[2]), "e": lambda o: "e", "E": lambda o: "E%d" % o[1]}[o[0]](o) for o in ops) or "_"
 
 
 def ops_scheme(ops):
@@ -1894,12 +1982,12 @@ def histories(ctx, d, exe, C, counts):
     exprs, mreq, oreq, meta = [], [], [], []
     for h in range(n69 + n125):
         api125 = h >= n69
-        kind = rng.choice([0, 1, 2, 2, 2, 3, 4])
+        kind = rng.choice([0, 1, 2, 2, 2, 3, 4, 5, 5])
         # eq?-tables over heap keys (hash-by-identity = address): compared with the SPEC map only
         heap_eq = kind == 0 and rng.random() < 0.4
         vals = gen_universe(rng, 2 if heap_eq else kind)
         nops = rng.choice([5, 20, 60, 120]) if h % 25 else 500
-        ops = gen_ops(rng, len(vals), nops, immutable_aside=api125)
+        ops = gen_ops(rng, len(vals), nops, immutable_aside=api125, extra=UPDATE_FIXED[0])
         if api125:
             mk = KINDS125[kind]
         elif kind == 2:
@@ -1915,7 +2003,7 @@ def histories(ctx, d, exe, C, counts):
             rng.shuffle(offs)
             vals = [("str", tuple(store[o:o + L])) for o in offs]
             keys = "(let ((bv (bytevector %s))) (vector %s))" % (" ".join(map(str, store)), " ".join("(utf8->string! bv %d %d)" % (o, o + L) for o in offs))
-            ops = gen_ops(rng, len(vals), nops, immutable_aside=api125)
+            ops = gen_ops(rng, len(vals), nops, immutable_aside=api125, extra=UPDATE_FIXED[0])
         exprs.append("(c15-hist %s %s %s %s)" % ("c15-api125" if api125 else "c15-api69", mk, keys, ops_scheme(ops)))
         cls = classes(vals, kind)
         mreq.append("mhist %s %s" % (",".join("%x" % c for c in cls), ops_model(ops)))
@@ -1923,12 +2011,14 @@ def histories(ctx, d, exe, C, counts):
         # eq?-tables hash heap objects by address: layout only when every key is an immediate
         oreq.append("ohist %d %s %s" % (kind, ";".join(token(v, C) for v in vals), ops_model(ops)) if layout else None)
         meta.append((kind, api125, vals, ops, mk))
-    out = [unquote(x) for x in scm.run_cases(d, exprs, prelude_extra=PRELUDE, imports=IMPORTS, chunk=40, timeout=900)]
+    out = [unquote(x) for x in scm.run_cases(d, exprs, prelude_extra=PRELUDE, imports=IMPORTS, chunk=40, timeout=HIST_TIMEOUT(ctx), max_dead=2)]
     mo = ctx.run_model(exe, mreq)
     oidx = [i for i, q in enumerate(oreq) if q is not None]
     oo = dict(zip(oidx, ctx.run_model(exe, [oreq[i] for i in oidx])))
     for i, ((kind, api125, vals, ops, mk), e, o) in enumerate(zip(meta, exprs, out)):
         kname = KINDS[kind][0] + (":srfi125" if api125 else "")
+        if o == "SKIPPED":
+            continue
         if o is None or o.startswith(("ERR", "CRASH", "TIMEOUT")):
             ctx.count(1, key=e)
             ctx.violation("table:%s:error" % kname, input=e, expected="a history dump", observed=o, replay=replay_scm(e))
@@ -1976,6 +2066,159 @@ def histories(ctx, d, exe, C, counts):
         elif i in oo:
             ctx.cov["traces_validated_against_impl"] += len(steps)
     ctx.sample(dict(kind="history", expr=exprs[0][:400], impl=(out[0] or "")[:300], spec=mo[0][:300], table_model=(oo.get(0) or "")[:300]))
+
+
+# ------------------------------------------------------------------------------------------------ K-inner, pointer level (round 4)
+def chains(ctx, d, exe, C, count):
+    """(srfi 69) tables with USER procedures (kinds 4, 5: colliding integer keys, chains up to ~14 pairs, regrows 23 -> .. -> 736): before / after every
+    set! and delete! the real spine pairs of all chains, by identity.  delete!: the chain of the key's bucket must be what the extracted
+    Chain.chain_delete (in-place unlink) leaves, address by address, every other chain untouched.  set! without growth: at most one new pair, at
+    the front of the key's bucket.  set! with growth: consing tree -> all pairs new, cells per bucket = extracted Table.regrow; relinking tree
+    (REGROW_RELINKS) -> per bucket exactly the OLD pairs Chain.regrow_relink predicts; then the new cell in front.  A difference that loses /
+    duplicates an entry or makes a chain cyclic is a VIOLATION (the history streams show the same history as wrong lookups); a pure
+    identity / order difference is `broken` (correspondence)."""
+    rng = ctx.rng
+    relinks = bool(C.get("REGROW_RELINKS"))
+    exprs, meta = [], []
+    for h in range(count):
+        kind = rng.choice([4, 5, 5])
+        vals = gen_universe(rng, kind)
+        nops = rng.choice([20, 60, 120])
+        ops, val = [], 1
+        pdel = rng.choice([0.15, 0.3, 0.45])
+        for _ in range(nops):
+            k = rng.randrange(len(vals))
+            if rng.random() < pdel:
+                ops.append(("d", k))
+            else:
+                val += 1
+                ops.append(("s", k, val))
+        keys = "(vector %s)" % " ".join(expr(v, rng, C) for v in vals)
+        exprs.append("(c15-chains %s %s %s)" % (KINDS[kind][1], keys, ops_scheme(ops)))
+        meta.append((kind, vals, ops))
+    out = [unquote(x) for x in scm.run_cases(d, exprs, prelude_extra=PRELUDE, imports=IMPORTS, chunk=30, timeout=HIST_TIMEOUT(ctx), max_dead=2)]
+
+    def bucket_of(kind, v, n):
+        hv = (v[1] % 7 + 20) if kind == 4 else 5 * ((v[1] % 41) % 3)
+        return hv if hv < n else 0
+
+    def parse(side, with_addr):
+        f = side.split(";")
+        n = int(f[0])
+        bs = {}
+        for b in f[1:]:
+            i, cells = b.split("=")
+            ent = []
+            for c in cells.split(","):
+                p = c.split(":")
+                ent.append((int(p[0]), int(p[1]), p[2]) if with_addr else (None, int(p[0]), p[1]))
+            bs[int(i)] = ent
+        return n, bs
+
+    reqs, want = [], []          # model requests and what to do with the answers
+    for ci, ((kind, vals, ops), e, o) in enumerate(zip(meta, exprs, out)):
+        if o == "SKIPPED":
+            continue
+        if o is None or o.startswith(("ERR", "CRASH", "TIMEOUT")):
+            ctx.count(1, key=e)
+            ctx.violation("table:chains:%s:error" % KINDS[kind][0], input=e, expected="a dump of the chains after every operation", observed=o, replay=replay_scm(e))
+            continue
+        steps = o.split("|")
+        ktok = ";".join(token(v, C) for v in vals)
+        ctx.count(len(steps), key=e, nontrivial=True)
+        for j, (st, op) in enumerate(zip(steps, ops)):
+            try:
+                bside, aside = st.split("~")
+                nb, before = parse(bside, False)
+                na, after = parse(aside, True)
+            except Exception:
+                ctx.violation("table:chains:%s:error" % KINDS[kind][0], input=e, failing_step=j, expected="a well-formed dump", observed=st[:300], replay=replay_scm(e))
+                break
+            # addresses of the numbering: bucket by bucket in index order, front to back
+            base, a0 = {}, 0
+            for i in sorted(before):
+                base[i] = a0
+                a0 += len(before[i])
+            cells_txt = lambda ent: ",".join("%d:%s" % (k, v) for (_, k, v) in ent) or "-"
+            ctxinfo = dict(case=ci, step=j, kind=kind, op=op, e=e, before=before, after=after, nb=nb, na=na, base=base, vals=vals)
+            if op[0] == "d":
+                i = bucket_of(kind, vals[op[1]], nb)
+                reqs.append("cdel %d %s %s %d" % (kind, ktok, cells_txt(before.get(i, [])), op[1]))
+                want.append(("d", i, ctxinfo))
+            elif na == nb:
+                want.append(("s", bucket_of(kind, vals[op[1]], nb), ctxinfo))
+                reqs.append(None)
+            else:
+                allb = "|".join(cells_txt(before.get(i, [])) for i in range(nb))
+                reqs.append(("crelink" if relinks else "cregrow") + " %d %s %s" % (kind, ktok, allb))
+                want.append(("g", bucket_of(kind, vals[op[1]], na), ctxinfo))
+    idx = [i for i, r in enumerate(reqs) if r is not None]
+    ans = dict(zip(idx, ctx.run_model(exe, [reqs[i] for i in idx])))
+    reported = set()
+    nval = 0
+    for qi, (what, i, c) in enumerate(want):
+        if c["case"] in reported:
+            continue
+        before, after, base = c["before"], c["after"], c["base"]
+        exp = {}      # bucket -> list of (addr or -1, key idx or None)
+        if what == "d":
+            for b, ent in before.items():
+                exp[b] = [(base[b] + q, k) for q, (_, k, v) in enumerate(ent)]
+            a = ans[qi]
+            if a == "NONE":
+                ctx.broken("correspondence:chain-delete", "model ran out of fuel on %s" % reqs[qi][:200])
+                continue
+            if i in before:
+                keep = [int(x) for x in a.split(",")] if a != "-" else []
+                exp[i] = [(base[i] + q, before[i][q][1]) for q in keep]
+        elif what == "s":
+            for b, ent in before.items():
+                exp[b] = [(base[b] + q, k) for q, (_, k, v) in enumerate(ent)]
+            got_n = sum(len(x) for x in after.values())
+            if got_n == a0_count(before) + 1:
+                exp[i] = [(-1, None)] + exp.get(i, [])
+        else:
+            a = ans[qi]
+            if a == "NONE":
+                ctx.broken("correspondence:chain-regrow", "model ran out of fuel on %s" % reqs[qi][:200])
+                continue
+            flat = [(base[b] + q, k) for b in sorted(before) for q, (_, k, v) in enumerate(before[b])]
+            for b, txt in enumerate(a.split("|")):
+                if txt in ("", "-"):
+                    continue
+                if relinks:
+                    exp[b] = [(int(x), flat[int(x)][1]) for x in txt.split(",")]
+                else:
+                    exp[b] = [(-1, int(x.split(":")[0])) for x in txt.split(",")]
+            if sum(len(x) for x in after.values()) == len(flat) + 1:
+                exp[i] = [(-1, None)] + exp.get(i, [])
+        exp = {b: v for b, v in exp.items() if v}
+        got = {b: [(a_, k) for (a_, k, v) in ent] for b, ent in after.items()}
+        same = set(exp) == set(got) and all(len(exp[b]) == len(got[b]) and all(x[0] == y[0] and (x[1] is None or x[1] == y[1]) for x, y in zip(exp[b], got[b])) for b in exp)
+        if same:
+            nval += 1
+            continue
+        reported.add(c["case"])
+        # is an entry lost / duplicated / misplaced (property violated) or only the identity / order of pairs different?
+        keys_exp = sorted(k for v in exp.values() for (_, k) in v if k is not None)
+        keys_got = sorted(k for v in got.values() for (_, k) in v)
+        truncated = any(len(v) >= 3000 for v in got.values())
+        placed = all(bucket_of(c["kind"], c["vals"][k], c["na"]) == b for b, v in got.items() for (_, k) in v if 0 <= k < len(c["vals"]))
+        lost = truncated or not placed or len(set(keys_got)) != len(keys_got) or not set(keys_exp) <= set(keys_got) or len(keys_got) - len(keys_exp) not in (0, 1)
+        desc = dict(input=c["e"], failing_step=c["step"], op=str(c["op"]), expected="chains %s" % sorted(exp.items())[:12], observed="chains %s%s" % (sorted(got.items())[:12], " (a chain does not end: cyclic)" if truncated else ""),
+                    replay=replay_scm(c["e"]), history_prefix=ops_scheme(meta[c["case"]][2][:c["step"] + 1]))
+        if lost:
+            ctx.violation("table:chains:%s:%s" % (KINDS[c["kind"]][0], {"d": "delete", "s": "set", "g": "regrow"}[what]), **desc)
+        else:
+            ctx.broken("correspondence:chains:%s" % {"d": "delete", "s": "set", "g": "regrow"}[what],
+                       "same entries, but the spine pairs / their order differ from the pointer-level model at step %d (%s) of %s: expected %s observed %s" % (
+                           c["step"], c["op"], c["e"][:200], sorted(exp.items())[:6], sorted(got.items())[:6]))
+    ctx.cov["traces_validated_against_impl"] += nval
+    ctx.note("pointer-level chains: %d histories, %d operations matched pair by pair (%s regrow loop)" % (len(exprs), nval, "relinking" if relinks else "consing"))
+
+
+def a0_count(before):
+    return sum(len(v) for v in before.values())
 
 
 def replay(ctx, rec):
